@@ -671,6 +671,12 @@ class Interp:
             for _ in range(b):
                 r = T.mul(r, a)
             return r
+        if T.is_scalar(a) and T.is_scalar(b):
+            # abstraction: an uninterpreted real-valued function of base and exponent
+            self.ctx.dropped.add("x ** y with a symbolic exponent: value abstracted to an uninterpreted real POW(x, y); "
+                                 "ZeroDivisionError / OverflowError / complex results of float power not modelled")
+            POW = z3.Function("POW", z3.RealSort(), z3.RealSort(), z3.RealSort())
+            return POW(T.tz(T.as_real(a)), T.tz(T.as_real(b)))
         raise PathAbort("power with non-constant exponent", self.ctx.cur_line)
 
     def _bitand(self, a, b):
@@ -947,6 +953,17 @@ class Interp:
                     e2[g.target.id] = it.item(i)
                     return self.eval(n.elt, e2)
                 return Arr((length,), fn, T.sort_of(probe), kind="list")
+        if isinstance(it, SymList) and not g.ifs:
+            # definitional list: item i is the element expression evaluated with the target bound to
+            # the i-th item of the iterable (re-evaluated for every index term it is asked for)
+            def item(i, self=self, env=env, it=it):
+                e2 = dict(env)
+                self.assign(g.target, it.item(i), e2)
+                return self.eval(n.elt, e2)
+            probe = item(T.fresh_int("lc"))
+            if T.is_scalar(probe):
+                return Arr((it.length,), item, T.sort_of(probe), kind="list")
+            return SymList(it.length, item, kind="list")
         raise PathAbort("comprehension over symbolic iterable", n.lineno)
 
     def ev_GeneratorExp(self, n, env):
@@ -1143,6 +1160,12 @@ class Interp:
         c = self.contracts.get(q)
         if c is not None:
             return c.apply(self, pos, kw, self_val=self_val, cls_val=cls_val)
+        if q in getattr(self, "opaque_calls", ()):
+            # the contract under verification declares this callee irrelevant to its clauses: the
+            # result is an unconstrained opaque value; "operands unchanged" is the callee's own
+            # C05 frame obligation (pyvc.own), listed as an assumption of this proof
+            self.ctx.trusted.add(f"opaque call: {q} (result unconstrained; operands unchanged by its C05 frame obligation)")
+            return Opaque("result-of-" + q.split(".")[-1])
         if self.inline is not None and q not in self.inline and fi.kind != "property":
             raise PathAbort(f"call of {q} without contract (not inlinable)", self.ctx.cur_line)
         self.ctx.havocked.discard(q)
